@@ -47,7 +47,7 @@ for f in r['findings']:
         byrule[(f['property'], f['clause'], f['rule'])].add(f['config'].split(' ')[0].rstrip('0123456789'))
     else:
         fam = f['config'].split(' ')[0]
-        for pre in ('sweep', 'variant', 'nspaces', 'affix'):
+        for pre in ('sweep', 'variant', 'nspaces', 'affix', 'sched'):
             if fam.startswith(pre):
                 fam = pre
         byinput[(f['property'], f['clause'])][fam].add(f['input'].split('#')[0])
@@ -60,7 +60,7 @@ for k in sorted(byinput):
     prop, clause = k
     for fam, inputs in sorted(byinput[k].items()):
         e = {"property": prop, "clause": clause, "rule": "", "what": WHAT.get(clause, clause) + " (inputs listed; configuration family: %s)" % fam, "input": sorted(inputs)}
-        e["config_contains"] = fam if fam in ("sweep", "variant", "nspaces", "affix") else None
+        e["config_contains"] = fam if fam in ("sweep", "variant", "nspaces", "affix", "sched") else None
         if e["config_contains"] is None:
             del e["config_contains"]
             e["config"] = fam
